@@ -350,6 +350,76 @@ static void run_cache(uint64_t idx, Ctx& c) {
     if (idx % 17 == 0) c.sample("{\"api\":" + jstr(BoxName[cc.api]) + ",\"doc\":" + jstr(DOCS[d].name) + ",\"way\":" + jstr(WAYS[cc.way]) + ",\"disturbance\":" + jstr(DISTURB[cc.disturb]) + "}");
 }
 
+// ------------------------------------------------------------------------------------------ table growth histories
+// Documents that push the per-parser tables past their initial capacity (more than 64 distinct declared attributes specified - the
+// scanner's attribute-bookkeeping pool has rows of 64; 40 nested elements - element stack of 32; 40 namespace declarations on one element;
+// 120 attributes on one element - hashed duplicate check above 100; 70 ID values), mixed with small documents over the SAME grammar.  Every
+// sequence of <= depth parses on one parser, with and without grammar caching, followed by a final parse of every document, must give what a
+// fresh parser gives for that document.
+static std::vector<HDoc> GDOCS;
+static void init_growth_docs() {
+    std::string atts, all;
+    for (int i = 1; i <= 70; i++) {
+        atts += " a" + std::to_string(i) + (i == 20 ? " CDATA 'd20'" : i == 40 ? " CDATA #REQUIRED" : i == 50 ? " ID #IMPLIED" : " CDATA #IMPLIED");
+        all += " a" + std::to_string(i) + "='v" + std::to_string(i) + "'";
+    }
+    g_vfs->put("/v/w.dtd", "<!ELEMENT r (e|r)*><!ELEMENT e EMPTY><!ATTLIST e" + atts + "><!ATTLIST r k ID #IMPLIED>");
+    std::string deep, deepEnd; for (int i = 0; i < 40; i++) { deep += "<r>"; deepEnd += "</r>"; }
+    std::string nsdecl; for (int i = 0; i < 40; i++) nsdecl += " xmlns:p" + std::to_string(i) + "='urn:n" + std::to_string(i) + "'";
+    std::string many; for (int i = 0; i < 120; i++) many += " b" + std::to_string(i) + "='" + std::to_string(i) + "'";
+    std::string ids; for (int i = 0; i < 70; i++) ids += "<r k='i" + std::to_string(i) + "'/>";
+    const std::string DT = "<!DOCTYPE r SYSTEM 'w.dtd'>";
+    GDOCS = {
+        {"wide-all-70-attributes", DT + "<r><r/><r/><e" + all + "/></r>"},
+        {"wide-one-element-valid", DT + "<r><e a10='z' a40='y'/></r>"},
+        {"wide-one-element-missing-required", DT + "<r><e a1='q'/></r>"},
+        {"wide-first-element", DT + "<r><e a7='s' a40='t' a64='u' a65='w' a70='x'/></r>"},
+        {"deep-40", DT + deep + "<e a40='m'/>" + deepEnd},
+        {"namespaces-40", "<r" + nsdecl + "><p3:x p39:y='1' xmlns:p3='urn:other'/><p0:z/></r>"},
+        {"attributes-120", "<r" + many + "><c b5='x' b119='y'/></r>"},
+        {"ids-70", DT + "<r>" + ids + "<r k='i3'/></r>"},
+        {"small", "<r><e/></r>"},
+    };
+}
+static int g_gdepth = 2;
+struct GCase { int api, cache, fin; std::vector<int> ops; };
+static GCase growth_case(uint64_t idx) {
+    GCase g; uint64_t nw = words_upto(GDOCS.size(), g_gdepth);
+    g.ops = word_at(idx % nw, GDOCS.size(), g_gdepth); idx /= nw;
+    g.fin = (int)(idx % GDOCS.size()); idx /= GDOCS.size();
+    g.cache = (int)(idx % 3); idx /= 3;
+    g.api = (int)idx;
+    return g;
+}
+static const char* GCACHE[] = {"no caching", "cacheGrammarFromParse+useCachedGrammarInParse", "loadGrammar(w.dtd, cache)+useCachedGrammarInParse"};
+static std::string growth_str(const GCase& g) {
+    std::string s = std::string(BoxName[g.api]) + " [" + GCACHE[g.cache] + "]: ";
+    for (int o : g.ops) s += "parse(" + GDOCS[o].name + "); ";
+    return s + "parse(" + GDOCS[g.fin].name + ")";
+}
+static void run_growth(uint64_t idx, Ctx& c) {
+    GCase g = growth_case(idx);
+    g_vfs->clear(); put_files(); init_growth_docs();
+    Config cfg; cfg.ns = true; cfg.val = 2; cfg.schema = false; cfg.scanner = IG;
+    std::unique_ptr<Box> used(make_box(g.api)); used->cfg = cfg;
+    if (g.cache == 1) { used->cacheFromParse(true); used->useCached(true); }
+    if (g.cache == 2) { used->loadGrammar("/v/w.dtd", false, true); used->useCached(true); }
+    for (int o : g.ops) used->parse(GDOCS[o].bytes, 0);
+    ParseResult ru = used->parse(GDOCS[g.fin].bytes, 0);
+    std::unique_ptr<Box> fresh(make_box(g.api)); fresh->cfg = cfg;
+    ParseResult rf = fresh->parse(GDOCS[g.fin].bytes, 0);
+    c.count("parses", 2 + g.ops.size());
+    std::string x = cache_view(rf), y = cache_view(ru);
+    if (x != y) {
+        size_t i = 0; while (i < x.size() && i < y.size() && x[i] == y[i]) i++;
+        size_t ls = x.rfind('\n', i); ls = ls == std::string::npos ? 0 : ls + 1;
+        c.violation("history-dependent-result", "\"history\":" + jstr(growth_str(g)) + ",\"expected\":" + jstr(x.substr(ls, 200)) + ",\"observed\":" + jstr(y.substr(ls, 200)));
+    }
+    if (rf.errs || !rf.ok()) c.count("final_with_errors"); else c.count("final_clean");
+    c.count("growth_histories");
+    if (idx % 997 == 0) c.sample("{\"history\":" + jstr(growth_str(g)) + "}");
+}
+
 int main(int argc, char** argv) {
     Args a(argc, argv);
     std::string space = a.str("space", "hist");
@@ -363,6 +433,13 @@ int main(int argc, char** argv) {
         R.fn = run_hist;
         R.describe = [](uint64_t i) { return "{\"history\":" + jstr(hist_str(hist_case(i))) + "}"; };
         R.extra_json = "\"alphabet\":" + std::to_string(OPS.size()) + ",\"depth\":" + std::to_string(g_depth) + ",\"documents\":" + std::to_string(DOCS.size());
+    } else if (space == "growth") {
+        g_vfs->clear(); init_growth_docs();
+        g_gdepth = (int)a.num("depth", 2);
+        R.total = words_upto(GDOCS.size(), g_gdepth) * GDOCS.size() * 3 * 3;
+        R.fn = run_growth;
+        R.describe = [](uint64_t i) { return "{\"history\":" + jstr(growth_str(growth_case(i))) + "}"; };
+        R.extra_json = "\"documents\":" + std::to_string(GDOCS.size()) + ",\"depth\":" + std::to_string(g_gdepth);
     } else if (space == "cache") {
         R.total = 5 * 4 * 4 * 3;
         R.fn = run_cache;
